@@ -548,16 +548,8 @@ let cmd_freeze (a : sx list) : string =
   match a with
   | [sch] ->
       let g = sx_schema_mut sch in
-      if g = [] then "(err data)" else
-      (match CanonicalForm.fingerprint fuel_big g with
-       | Ok f ->
-           (match SchemaJson.schema_json fuel_big g with
-            | Ok t ->
-                (match freeze_nodes (nat_of_int (L.length g)) g with
-                 | Ok _ -> "(ok " ^ hex f ^ " " ^ hex t ^ ")"
-                 | _ -> "(err data)")
-            | Err _ -> "(err data)"
-            | _ -> "(outoffuel)")
+      (match Freeze.freeze_built fuel_big g with
+       | Ok ((_, f), t) -> "(ok " ^ hex f ^ " " ^ hex t ^ ")"
        | Err _ -> "(err data)"
        | _ -> "(outoffuel)")
   | _ -> failwith "freeze: arguments"
